@@ -1,6 +1,7 @@
 package rig
 
 import (
+	"math/big"
 	"strconv"
 
 	"verifharness/fixref"
@@ -87,6 +88,13 @@ func Alphabet() []Sym {
 		{Name: "LogonNonNumericHb", LogonClass: LogonNonNumericHb, Type: "A", Build: func(p *Peer, lim [2]int) []byte {
 			return p.Msg("A", fixref.F(TEncrypt, "0"), fixref.F(THeartBt, "3x"))
 		}},
+		// numeric fields whose value exceeds 64 bits and would wrap to an acceptable number
+		{Name: "LogonHbWrapsAround2^64", LogonClass: LogonNonNumericHb, Type: "A", Build: func(p *Peer, lim [2]int) []byte {
+			return p.Msg("A", fixref.F(TEncrypt, "0"), fixref.F(THeartBt, Plus2to64(mid(lim))), fixref.F(TUser, "user"), fixref.F(TPass, "pw"))
+		}},
+		{Name: "LogonBodyLengthWrapsAround2^64", LogonClass: LogonBadLength, Type: "A", Build: func(p *Peer, lim [2]int) []byte {
+			return HugeLength(p.Logon(mid(lim), "0", fixref.F(TUser, "user"), fixref.F(TPass, "pw")))
+		}},
 		{Name: "Heartbeat", Type: "0", Build: func(p *Peer, lim [2]int) []byte { return p.Heartbeat() }},
 		{Name: "TestRequest", Type: "1", Build: func(p *Peer, lim [2]int) []byte { return p.TestRequest("id" + strconv.Itoa(p.Seq+1)) }},
 		{Name: "ResendAll", Type: "2", Build: func(p *Peer, lim [2]int) []byte { return p.Resend(1, 0) }},
@@ -97,4 +105,30 @@ func Alphabet() []Sym {
 		{Name: "LocalSend", Local: true},
 		{Name: "LocalLogout", Local: true},
 	}
+}
+
+// Plus2to64 renders 2^64 + n in decimal.
+func Plus2to64(n int) string {
+	x := new(big.Int).Lsh(big.NewInt(1), 64)
+	return x.Add(x, big.NewInt(int64(n))).String()
+}
+
+// HugeLength returns a copy whose BodyLength value is 2^64 + the real length (checksum recomputed, so only the
+// length field is wrong: it does not state the number of bytes that follow).
+func HugeLength(m []byte) []byte {
+	fs, err := fixref.TokenizeLoose(m)
+	if err != nil || len(fs) < 4 {
+		return m
+	}
+	n, _ := strconv.Atoi(string(fs[1].Val))
+	var out []byte
+	out = append(out, (fs[0].Tag + "=" + string(fs[0].Val) + "\x01")...)
+	out = append(out, (fs[1].Tag + "=" + Plus2to64(n) + "\x01")...)
+	for _, f := range fs[2 : len(fs)-1] {
+		out = append(out, (f.Tag + "=")...)
+		out = append(out, f.Val...)
+		out = append(out, 1)
+	}
+	out = append(out, (fs[len(fs)-1].Tag + "=" + fixref.Sum3(out) + "\x01")...)
+	return out
 }
